@@ -464,6 +464,20 @@ def path_networks():
                 rest -= take
             table[d] = cost
         out.append((f"{k}_disjoint_paths{'_with_cross_arcs' if cross else ''}", n, arcs, 0, 1, table))
+    # dense networks on 8-12 nodes: a chain 0..n-1 of unit cost and capacity 3, every shortcut (i, j>i+1) at cost 9 per hop
+    # skipped (never worth taking), some of them twice, and - listed last - a direct arc 0 -> n-1 of cost 1 and capacity 1
+    for n, extra in ((8, 4), (8, 5), (8, 12), (10, 3), (12, 0)):
+        arcs = [(i, i + 1, 3, 1) for i in range(n - 1)]
+        short = [(i, j, 3, 9 * (j - i)) for i in range(n) for j in range(i + 2, n) if (i, j) != (0, n - 1)]
+        arcs += short + [(u, v, 2, c + (v - u)) for u, v, _, c in short[:extra]]
+        arcs.append((0, n - 1, 1, 1))
+        table = {0: 0}
+        for d in range(1, 6):
+            table[d] = 1 + (n - 1) * (d - 1) if d <= 4 else 1 + 3 * (n - 1) + min(c for u, v, _, c in [(0, n - 1, 0, 9 * (n - 1))] + [(0, 0, 0, 10**9)])
+        # the fifth unit has to use shortcuts: cheapest is any monotone combination, 9 per hop skipped plus chain parts are
+        # full, so the closed form stops at 4 units
+        del table[5]
+        out.append((f"dense_{n}_nodes_{len(arcs)}_arcs_direct_arc_last", n, arcs, 0, n - 1, table))
     return out
 
 
@@ -475,9 +489,10 @@ def _paths_chunk(params, lo, hi):
     nets = path_networks()
     r = new_result()
     for idx in range(lo, hi):
-        name, n, arcs, s, t, table = nets[idx // 2]
-        order = idx % 2
-        alist = list(arcs) if order == 0 else list(reversed(arcs))
+        name, n, arcs, s, t, table = nets[idx // 3]
+        order = idx % 3
+        # 0: as built, 1: reversed, 2: zig-zag (arcs grouped by tail node in the order 1, 0, 3, 2, 5, 4, ...)
+        alist = list(arcs) if order == 0 else (list(reversed(arcs)) if order == 1 else sorted(arcs, key=lambda a: (a[0] ^ 1, a[1] ^ 1)))
         graph = {}
         for u, v, cap, c in alist:
             graph.setdefault(u, []).append((v, cap, c))
@@ -498,7 +513,7 @@ def _paths_chunk(params, lo, hi):
 
                 v, verdict = guarded(call, 30.0, 300_000_000)
                 res, err = (None, None) if verdict else v
-                how = f"{fname} on {name} ({n} nodes, arc list {'reversed' if order else 'as built'}), demand {d}"
+                how = f"{fname} on {name} ({n} nodes, arc list {('as built', 'reversed', 'zig-zag by tail node')[order]}), demand {d}"
                 if verdict or err:
                     r["outcomes"][f"paths:{fname}:{'hang' if verdict else 'raised'}"] += 1
                     r["violations"].append(viol(fname, "nontermination" if verdict else "raised", wit, f"{how}: {verdict or err}"))
@@ -574,7 +589,7 @@ def jobs(tier, seed):
         js.append(Job(f"n4_arcsets_{k}", comb(12, k) * (2 * len(cs)) ** k, _n4_chunk, (k, (1, 2), cs), describe=f"k distinct ordered pairs on 4 nodes, caps {{1,2}}, costs {cs}; both list orders"))
     for k in (4, 5, 6):
         js.append(Job(f"n5_layered_{k}arcs_unit_costs012", comb(len(L5_PAIRS), k) * 3**k, _layered5_chunk, k, describe="5 nodes, source out-arcs only, sink in-arcs only, k unit-capacity arcs with costs {0,1,2}, demand 1 and 2, two dict orders: the smallest networks on which Bellman-Ford needs a sweep that only lowers labels"))
-    js.append(Job("disjoint_path_networks", len(path_networks()) * 2, _paths_chunk, None, chunk=1, describe="4-9 node-disjoint source-sink paths of 2-10 arcs (15-60 nodes), capacities 1-4, one negative arc on every second path, optional useless cross arcs; every demand from 0 to one more than the total capacity; min_cost_flow and network_simplex against the closed form (fill the paths in order of unit cost); both arc-list orders"))
+    js.append(Job("disjoint_path_networks", len(path_networks()) * 3, _paths_chunk, None, chunk=1, describe="dense 8-12 node networks with 33-66 arcs whose only cheap shortcut is listed last; 4-9 node-disjoint source-sink paths of 2-10 arcs (15-60 nodes), capacities 1-4, one negative arc on every second path, optional useless cross arcs; every demand from 0 to one more than the total capacity; min_cost_flow and network_simplex against the closed form (fill the paths in order of unit cost); three arc-list orders (as built, reversed, zig-zag by tail node)"))
     js.append(Job("assignment_large_planted", len(large_assignments()), _large_assign_chunk, None, chunk=1, describe="1x11, 11x1, 11x11, 12x13, 13x12 matrices with a planted zero-cost matching (two-digit row/column indices)"))
     for rows in (1, 2, 3):
         for cols in (1, 2, 3):
